@@ -218,6 +218,10 @@ def one_input(ctx, budget, script, kind, errors, expect_canary=False):
         ctx.count('canary_scripts')
 
 
+COLLISION_SCRIPTS = ['Y = X[-1]\nY = X[`t-1`]', 'Y = X[`t-1`]\nY = X[-1]', 'Y = X\nY = X[`t`]', 'Y = X[1] + Z\nY = X[`t+1`] + Z', 'Y = {a}[-2]\nY = {a}[`t-2`]',
+                     'Y = X[`t`]\nY = X[0]\nZ = Y', "Y = X['t-1']\nY = X[-1]", 'Y = X [-1]\nY = X[`t-1` ]']
+
+
 CANARY_SCRIPTS = [
     'Y = __fsic_canary__(1)', 'Y = print("x")', '```\n__fsic_canary__()\n```', '`__fsic_canary__()`', 'Y = 1/0', 'Y = __fsic_canary__(X[-1]) + 1/0',
     'Y = X\n```\nprint(1)\n__fsic_canary__(2)\n```\nZ = Y', 'Y = (__fsic_canary__(1) if __fsic_canary__(2) else 3)', 'Y = [__fsic_canary__(i) for i in range(3)][0]',
@@ -285,6 +289,14 @@ def run_shard(ctx):
             one_input(ctx, budget, s, 'canary', errors, expect_canary=True)
             for j in range(ctx.pick(3, 40)):
                 one_input(ctx, budget, mutate(rng, s), 'canary-mutation', errors, expect_canary=True)
+        # 3b. two different statements for one variable whose *normalised equations* coincide (integer offset vs backticked
+        #     expression index): either both count (rejected as a double definition) or neither is dropped silently
+        for k, sc in enumerate(COLLISION_SCRIPTS):
+            if not ctx.mine(k):
+                continue
+            one_input(ctx, budget, sc, 'collision', errors)
+            for j in range(ctx.pick(3, 30)):
+                one_input(ctx, budget, mutate(rng, sc), 'collision-mutation', errors)
         # 4. mutation fuzzing of valid scripts
         rp = gen.RandomPrograms(rng, max_depth=3, max_eqs=4, max_names=6, big_offsets=True, underscore_rate=0.05, funcvar_rate=0.05, conflict_rate=0.1)
         for i in range(ctx.pick(300, 18000)):
